@@ -309,8 +309,10 @@ def asmCandidates (issuer : Url) : List Url :=
   | .bad _ => []
   | _ => (if issuer.hasPath then asWkWithPath else asWkNoPath).map issuer.derive
 
-/-- `validateAuthServerMetaURLs`. -/
+/-- `validateAuthServerMetaURLs`. The first line is present only once the code refuses metadata
+without the REQUIRED endpoints (regenerated flags; `false` in the pinned tree). -/
 def asmUrlsOk (d : AsmDoc) : Bool :=
+  (!authorizationEndpointRequired || d.authorizationEndpoint != .empty) && (!tokenEndpointRequired || d.tokenEndpoint != .empty) &&
   ([d.authorizationEndpoint, d.tokenEndpoint, d.registrationEndpoint, d.introspectionEndpoint] ++ d.otherUrls).all checkScheme &&
   [d.authorizationEndpoint, d.tokenEndpoint, d.registrationEndpoint, d.introspectionEndpoint].all checkHOL
 
